@@ -14,7 +14,7 @@ of the module are evaluated on every state of the explaining behaviour, and time
 from vf.props import _family
 
 PROFILES = "errors".split(',')
-CFGS = "lim,nodoors,sub".split(',')
+CFGS = "lim,nodoors,sub,timeout".split(',')
 NEGATIVES = dict(x.split(':') for x in "-".split(',') if ':' in x)
 FEATURES = set("retry,failure".split(','))
 
@@ -147,4 +147,6 @@ def run(ctx, rep) -> None:
         scs += H.gen_scenarios(ctx.seed, n // len(PROFILES), p)
     # a handler that registers two sub-handlers whenever it runs (Handling.tla with conf.subs: InvokeSub / ParentEnd)
     scs += H.gen_scenarios(ctx.seed, 50 if ctx.quick else 1000, 'subs')
+    # handlers with timeout=T: the record's creation instant is part of the compared state, NoLateAttempt is evaluated in every state
+    scs += H.gen_scenarios(ctx.seed, 60 if ctx.quick else 1200, 'timeouts')
     _family.run_traces(rep, scs, '+'.join(PROFILES), nontrivial=lambda f: bool(f & FEATURES))
